@@ -176,6 +176,9 @@ pub fn base_pool() -> Vec<&'static str> {
         "http://[::1]:81/p",
         "http://1.2.3.4/p?q",
         "file://localhost/x",
+        "file://127.0.0.1/share/f",
+        "file://[::1]/x/y",
+        "http://[1:0:0:2:0:0:3:4]/",
     ]
 }
 
